@@ -15,7 +15,7 @@ structure Stages where
 
 /-- The front half: up to the directive list handed to `hexasm::CodeGen`. -/
 def stages (P : X.Program) : Except Diag Stages := do
-  let tbl := createSymbols P
+  let tbl ← createSymbols P
   let A ← constProp tbl P
   let A' := optimise A
   let cg ← codeGen tbl A'
